@@ -489,7 +489,12 @@ def r4_padding(rep, src):
     else:
         rep.fail('C06.R6', f.site, 'name lookup: last member wins', 'the name index is not overwritten by later members of the same name', where=f.where)
     # the producer is ArMember.from_file on the archive's file object; the loop ends (before listing) at its sentinel
-    if norm(loop.producer.func) == 'ArMember.from_file' and loop.producer.args and norm(loop.producer.args[0]) == fpn:
+    mod_ = src.mod(M)
+    truthy_hooks = [n for c in mod_.mro('ArMember') for n in ('__bool__', '__len__') if ('%s.%s' % (c, n)) in mod_.funcs]
+    if loop.sentinel == 'falsy' and truthy_hooks:
+        rep.fail('C06.R6', f.site, 'walk ends at end of archive', 'the walk stops at the first member that is falsy (ArMember defines %s): a valid member -- e.g. an '
+                 'empty one -- and everything after it disappear from the listing; the end-of-archive test must be `is None`' % ', '.join(truthy_hooks), where=f.where)
+    elif norm(loop.producer.func) == 'ArMember.from_file' and loop.producer.args and norm(loop.producer.args[0]) == fpn:
         rep.ok('C06.R6', f.site, 'walk ends at end of archive', 'from_file → %s ends the loop before listing' % loop.sentinel, nontrivial=False)
     else:
         rep.fail('C06.R6', f.site, 'walk ends at end of archive', 'the loop does not stop (before listing) when no further header exists', where=f.where)
